@@ -22,6 +22,11 @@ def check_defined(rep, repo, rule, roots, label):
             n_bad += 1
             rep.fail(rule, f.where, '%s: every local name is bound before it is read' % label, got='%s is read at line %d and bound only further down (UnboundLocalError on the first pass)' % (name, line),
                      want='a binding in front of the first read', construct='unbound local %s in %s' % (name, f.qualname), loc='%s:%d' % (f.relpath, line))
+        for name, line in lints.flags_without_default(f):
+            n_bad += 1
+            rep.fail(rule, f.where, '%s: a flag has a value on every path to its test' % label,
+                     got='%s is only ever assigned constants under a condition; at line %d it holds one of them or nothing at all (UnboundLocalError when the condition never held)' % (name, line),
+                     want='a default assignment in front of the conditional ones', construct='flag %s without default in %s' % (name, f.qualname), loc='%s:%d' % (f.relpath, line))
         for cls, attr, line in lints.never_defined_attributes(repo, f, defs):
             n_bad += 1
             rep.fail(rule, f.where, '%s: every attribute that is read is defined somewhere for its class' % label,
